@@ -2,6 +2,7 @@ import JivaVerif.Generated.Facts
 import JivaVerif.Expected
 import JivaVerif.Model.Controller
 import JivaVerif.Model.DiffDisk
+import JivaVerif.Model.Rpc
 /-!
 # Tie (T1): the regenerated facts agree with what the models use
 
@@ -63,6 +64,10 @@ theorem chainLimit (top maxLen : Nat) (h : Gen.chainTooLong (top + 1) maxLen = f
     (for the configured factors the model covers, `rf ≥ 1`) -/
 theorem startOverRF (n rf : Nat) (h : 1 ≤ rf) : Gen.startOverRF n rf = decide (n > rf) := by
   unfold Gen.startOverRF; simp; omega
+
+/-- the wire frame: `Wire.Write` and `Wire.Read` use the field order and widths of the RPC model's
+    `encode` / `decode` (`Rpc.encode_layout`) -/
+theorem wireLayout : Gen.wireWrite = Rpc.layout ∧ Gen.wireRead = Rpc.layout := by decide
 
 /-- every action a handler is routed for appears in some state's table, and conversely every
     action a state offers is routed (so an offered action is never a dead link) -/
